@@ -323,10 +323,15 @@ class IOBytesBase64Provider(BytesIOBase64Provider, _Base64JSONSchemaMixin, Morph
 
     def _make_dumper(self):
         def io_bytes_base64_dumper(data: typing.IO[bytes]):
-            if data.seekable():
-                data.seek(0)
+            if not data.seekable():
+                return b2a_base64(data.read(), newline=False).decode("ascii")
 
-            return b2a_base64(data.read(), newline=False).decode("ascii")
+            position = data.tell()  # dumping must leave the caller's stream where it was
+            data.seek(0)
+            try:
+                return b2a_base64(data.read(), newline=False).decode("ascii")
+            finally:
+                data.seek(position)
         return io_bytes_base64_dumper
 
 
